@@ -444,6 +444,11 @@ def inline_new_helpers(fns_by_path, pinned, max_inlines=60, max_callee_blocks=40
                     nb = _subst_generics(nb, gargs)
                 nb['i'] = cb['i'] + boff
                 nb['inl'] = stack
+                # where a panic that leaves the spliced body goes on unwinding: the call's own landing pad, or - for a call made from
+                # code that was itself spliced in and had nothing of its own to clean up - the landing pad of the enclosing call
+                unw = t.get('unwind') if isinstance(t.get('unwind'), int) else bl.get('unw')
+                if isinstance(unw, int):
+                    nb['unw'] = unw
                 tt = nb['term']
                 if tt['k'] == 'return':
                     nb['stmts'].append({'k': 'assign', 'place': t['dest'],
@@ -453,8 +458,8 @@ def inline_new_helpers(fns_by_path, pinned, max_inlines=60, max_callee_blocks=40
                         nb['term'] = {'k': 'goto', 'target': t['target']}
                     else:
                         nb['term'] = {'k': 'unreachable'}
-                elif tt['k'] == 'resume' and isinstance(t.get('unwind'), int):
-                    nb['term'] = {'k': 'goto', 'target': t['unwind']}
+                elif tt['k'] == 'resume' and isinstance(unw, int):
+                    nb['term'] = {'k': 'goto', 'target': unw}
                 j['blocks'].append(nb)
             for i, a in enumerate(t['args']):
                 lt = cj['locals'][i + 1]['ty']
@@ -712,7 +717,28 @@ def _uses_local(cj, l):
     return False
 
 
-def desugar_effect_closures(fns_by_path, max_rewrites=40):
+def _fn_item_as_closure(fns_by_path, target, span):
+    """a body that does what the closure `|x| target(x)` does, under the path `<target>::{fn item}`"""
+    cp = target + '::{fn item}'
+    if cp in fns_by_path:
+        return cp
+    tj = fns_by_path[target]
+    if tj.get('arg_count') != 1:
+        return None
+    fns_by_path[cp] = {
+        'path': cp, 'def_kind': 'Closure', 'arg_count': 2, 'span': tj.get('span'), 'body_span': tj.get('body_span'), 'parent': tj.get('path'), 'synthetic': True,
+        'locals': [{'i': 0, 'ty': tj['locals'][0]['ty'], 'name': None}, {'i': 1, 'ty': '()', 'name': None}, {'i': 2, 'ty': tj['locals'][1]['ty'], 'name': None}],
+        'debug': [], 'promoted': [],
+        'blocks': [{'i': 0, 'cleanup': False, 'stmts': [],
+                    'term': {'k': 'call', 'callee': {'path': target, 'generic_args': '[]', 'local': True, 'krate': 'nederlang', 'unsafe': False, 'resolved': target,
+                                                     'resolved_local': True, 'resolved_kind': 'Item'},
+                             'args': [{'k': 'move', 'place': {'local': 2, 'proj': [], 'ty': tj['locals'][1]['ty'], 'text': '_2'}}],
+                             'dest': {'local': 0, 'proj': [], 'ty': tj['locals'][0]['ty'], 'text': '_0'}, 'target': 1, 'unwind': None, 'span': span}},
+                   {'i': 1, 'cleanup': False, 'stmts': [], 'term': {'k': 'return', 'span': span}}]}
+    return cp
+
+
+def desugar_effect_closures(fns_by_path, max_rewrites=40, fn_items=()):
     """returns {caller: [closure paths spliced]}"""
     done = {}
     originals = {}
@@ -735,6 +761,16 @@ def desugar_effect_closures(fns_by_path, max_rewrites=40):
                 continue
             enum, on_variant, wrap = spec
             ca = t['args'][1]
+            if ca.get('k') == 'const' and ca.get('fn') in fn_items and ca['fn'] in fns_by_path and wrap not in ('filter', 'then'):
+                # a new helper of the crate handed over as a plain function: `res.and_then(execute)` runs execute on the Ok side
+                fcp = _fn_item_as_closure(fns_by_path, ca['fn'], t['span'])
+                if fcp is not None:
+                    j['locals'].append({'i': len(j['locals']), 'ty': 'Closure(%s)' % fcp, 'name': None, 'inl': fcp})
+                    nl_ = len(j['locals']) - 1
+                    bl['stmts'].append({'k': 'assign', 'place': {'local': nl_, 'proj': [], 'ty': 'Closure(%s)' % fcp, 'text': '_%d' % nl_},
+                                        'rv': {'k': 'aggregate', 'agg': 'Closure', 'closure': fcp, 'fields': [], 'ops': []}, 'span': t['span']})
+                    ca = {'k': 'move', 'place': {'local': nl_, 'proj': [], 'ty': 'Closure(%s)' % fcp, 'text': '_%d' % nl_}}
+                    t['args'][1] = ca
             cl = ca.get('place', {}).get('local') if ca.get('k') in ('copy', 'move') and not ca['place']['proj'] else None
             if cl is None:
                 continue
@@ -756,7 +792,7 @@ def desugar_effect_closures(fns_by_path, max_rewrites=40):
             if cp is None or cp not in fns_by_path or cp in bl.get('inl', ()):
                 continue
             cj = originals.setdefault(cp, copy.deepcopy(fns_by_path[cp]))
-            if (wrap not in ('filter', 'then') and not _closure_has_effects(cj)) or len(cj['blocks']) > 200:
+            if (wrap not in ('filter', 'then') and not cj.get('synthetic') and not _closure_has_effects(cj)) or len(cj['blocks']) > 200:
                 continue
             if wrap == 'filter' and not _closure_has_effects(cj) and _uses_local(cj, 2):
                 # a predicate ABOUT the payload (`.filter(|p| *p < len)`) is a bound on a value: the rules read it from the closure
@@ -964,7 +1000,12 @@ class Facts:
                 done = inline_new_helpers(byp, set(pinned[crate]))
                 done3 = inline_direct_closure_calls(byp)
                 devirtualize_fn_pointers(byp)
-                done2 = desugar_effect_closures(byp)
+                new_helpers = {p_ for p_, j_ in byp.items() if p_ not in set(pinned[crate]) and j_.get('def_kind') in ('Fn', 'AssocFn')}
+                done2 = desugar_effect_closures(byp, fn_items=new_helpers)
+                if any('::{fn item}' in x_ for v_ in done2.values() for x_ in v_):
+                    # a new helper handed to a combinator as a plain function (`compile(p).and_then(execute)`) is now called directly
+                    for k_, v_ in inline_new_helpers(byp, set(pinned[crate]) | {p_ for p_ in byp if p_.endswith('::{fn item}')}).items():
+                        done.setdefault(k_, []).extend(v_)
                 for k_, v_ in done3.items():
                     done.setdefault(k_, []).extend(v_)
                 for k_, v_ in done2.items():
@@ -1352,6 +1393,9 @@ class AbsInt:
             if isinstance(v, tuple) and v and v[0] == 'ref' and v[1] in env:
                 v = env[v[1]]
                 continue
+            if isinstance(v, tuple) and v and v[0] == 'ref' and isinstance(v[1], str) and v[1].endswith('.*') and v[1][:-2] in env:
+                v = env[v[1][:-2]]          # `&*r`: a reborrow of what r designates
+                continue
             break
         return v
 
@@ -1605,6 +1649,12 @@ class AbsInt:
                 d = self.discr_value(rv['enum'], v[2])
                 if d is not None:
                     return ('int', d, 'discr')
+            if v[0] == 'call' and v[1].endswith('::from_residual') and v[1].startswith(('<core::result::Result<', '<core::option::Option<')) \
+                    and rv['enum'] in ('core::result::Result', 'core::option::Option'):
+                # what `?` built from a residual is the failure variant (Err / None)
+                d = self.discr_value(rv['enum'], 'Err' if rv['enum'].endswith('Result') else 'None')
+                if d is not None:
+                    return ('int', d, 'discr')
             return ('discr_of', self.resolve_key(env, rv['place']), rv['enum'], v)
         if k == 'aggregate':
             vals = tuple(self.eval_op(env, o) for o in rv['ops'])
@@ -1777,6 +1827,11 @@ class AbsInt:
                             res = ('agg', a0[1], a0[2], (inner,))
                         elif a0[2] in ('Err', 'None'):
                             res = a0
+                if res is None and len(argvals) == 1 and name in ('core::str::<impl str>::len', 'core::str::<impl str>::is_empty'):
+                    a0 = self._deref_val(env, argvals[0])
+                    if isinstance(a0, tuple) and a0 and a0[0] == 'str':
+                        n_ = len(a0[1].encode('utf-8'))         # the length of a string literal, in bytes
+                        res = ('int', n_, 'usize') if name.endswith('len') else ('int', int(n_ == 0), 'bool')
                 if res is None:
                     res = self.fold_table_call(env, name, argvals)
                 if res is None and name.endswith(('Option::<T>::unwrap_or_else', 'Option::<T>::map_or_else')) and len(argvals) >= 2 and argvals[0][0] == 'agg' \
